@@ -140,6 +140,21 @@ theorem quoteByte_no_raw_quote (b : Nat) (hb : b < 256) :
 
 example : quote [0, 200, 127] = [34, 92,120,48,48, 92,120,99,56, 92,120,55,102, 34] := by decide
 
+theorem quoteByte_length_le (b : Nat) : (quoteByte b).length ≤ 4 := by
+  unfold quoteByte
+  repeat' split
+  all_goals simp
+
+/-- **bounded output**: a literal is at most four bytes per input byte plus the two delimiters -/
+theorem quote_length_le (s : List Nat) : (quote s).length ≤ 4 * s.length + 2 := by
+  have h : (s.flatMap quoteByte).length ≤ 4 * s.length := by
+    induction s with
+    | nil => simp
+    | cons x xs ih =>
+      simp only [List.flatMap_cons, List.length_append, List.length_cons]
+      have := quoteByte_length_le x; omega
+  simp only [quote, List.length_cons, List.length_append, List.length_nil]; omega
+
 -- non-vacuity / the motivating input: quotes and backslashes
 example : quote [97, 34, 98, 92, 99] = [34, 97, 92, 34, 98, 92, 92, 99, 34] := by decide
 
